@@ -32,5 +32,6 @@ def main():
     bad = [r for r in rows if not r[2] or r[3] == "MISSED"]
     print("%d seeded changes, %d need attention" % (len(rows), len(bad)))
     subprocess.run(["python3", "/verif/tools/fill_seeded_meta.py"])
+    subprocess.run(["python3", "/verif/tools/rebuild_summary.py"])  # SUMMARY.json always covers every seeded change
     subprocess.run(["python3", "/verif/tools/gen_design_tables.py"])
 main()
